@@ -13,6 +13,7 @@ from .lie_common import (lib_call, euler_ok, algebra_corpus, group_corpus, run_c
 PI = np.pi
 MARGIN = 0.05
 SHARDS = {"quick": 14, "thorough": 16}
+REQUIRED_REACH = ['SO3QuatLieGroup.log', 'SO3MrpLieGroup.log', 'SO3DcmLieGroup.log', 'SO3EulerLieGroup.log', 'SE2LieGroup.log', 'SE3LieGroup.log', 'SE23LieGroup.log', 'LieGroupDirectProduct.log']
 RULE = ("per group: (a) elements X from axis-angle (angle 0..pi-0.05; both quaternion signs incl. q~(-1,0,0,0), shadow MRPs, "
         "DCM, Euler outside the band; SE(2) |theta|<2pi-0.05) checked exp(log X)=X as matrices; (b) algebra x with angle "
         "< pi-0.05 checked log(exp x)=x as parameters; (c) the same rotation (axis, angle) expressed in all four SO(3) "
